@@ -42,7 +42,7 @@ func sessionTextKey(s *Session, obsKey string) string {
 		return "L\x00" + sk(si)
 	case strings.HasPrefix(obsKey, "Q|"):
 		fmt.Sscanf(obsKey, "Q|%d|%d", &si, &di)
-		return "V\x00" + sk(si) + "\x00\x00" + s.Docs[di]
+		return "Q\x00" + sk(si) + "\x00\x00" + s.Docs[di]
 	}
 	fmt.Sscanf(obsKey, "V|%d|%d", &si, &di)
 	return "V\x00" + sk(si) + "\x00" + docName(s, di) + "\x00" + s.Docs[di]
@@ -117,7 +117,7 @@ func runSessionsOracle(sessions []*Session, key *isoKey) (string, *Witness) {
 	var keyObsd []keyObs
 	if key != nil {
 		keyText = key.Kind + "\x00" + schemaKeyText(key.SchemaName, key.Schema, key.Cuts, key.SameName, key.BuiltIn)
-		if key.Kind == "V" {
+		if key.Kind != "L" {
 			keyText += "\x00" + key.DocName + "\x00" + key.Doc
 		}
 	}
@@ -419,7 +419,10 @@ func c10HistoryWitnessMain(args []string) {
 		} else {
 			sess.Docs = []string{m.Key.Doc}
 			sess.NamedDocs = m.Key.DocName != ""
-			sess.Ops = []Op{{Kind: "load", S: 0}, {Kind: "first", S: 0, D: 0}, {Kind: "query", S: 0, D: 0}, {Kind: "fresh", S: 0, D: 0}}
+			sess.Ops = []Op{{Kind: "load", S: 0}, {Kind: "first", S: 0, D: 0}, {Kind: "first", S: 0, D: 0}}
+			if m.Key.Kind == "Q" {
+				sess.Ops = []Op{{Kind: "load", S: 0}, {Kind: "query", S: 0, D: 0}, {Kind: "query", S: 0, D: 0}}
+			}
 		}
 		for i := range sess.Ops {
 			// clock and randomness (if the library uses any): one stream per operation
@@ -541,6 +544,9 @@ func c10KeyMain(args []string) {
 	s := genSession(*seed, *source)
 	var si, di int
 	k := isoKey{Kind: "V", Session: *seed, Source: *source, ObsKey: *obs}
+	if strings.HasPrefix(*obs, "Q|") {
+		k.Kind = "Q"
+	}
 	if strings.HasPrefix(*obs, "L|") {
 		fmt.Sscanf(*obs, "L|%d", &si)
 		k.Kind = "L"
